@@ -1002,3 +1002,114 @@ def drv_grad_api(doc, args, inst):
 
 
 DRIVERS.update({'grad_op': drv_grad_op, 'grad_api': drv_grad_api})
+
+
+def _numlist(v, lo=1, hi=6):
+    return [clampi(s, lo, hi) for s in v]
+
+
+def drv_reshape(doc, args, inst):
+    msgs = []
+    for seed in range(2):
+        x = build(inst, args['x'], 10 + seed)
+        sx = snapshot(x)
+        tgt = inst['target']
+        if x.is_ttm:
+            # make the target consistent with the (clamped) source sizes: recompute from the run structure when available
+            tgt = [(clampi(a), clampi(b)) for a, b in tgt]
+            if int(np.prod([a for a, b in tgt])) != int(np.prod(x.M)) or int(np.prod([b for a, b in tgt])) != int(np.prod(x.N)):
+                return []
+        else:
+            tgt = _numlist(tgt, 1, 64)
+            if int(np.prod(tgt)) != int(np.prod(x.N)):
+                return []
+        try:
+            r = torchtt.reshape(x, tgt)
+        except Exception as e:
+            return ['reshape(%s, %s) raises %s: %s' % (descr(x), tgt, type(e).__name__, str(e)[:120])]
+        we = wf_errors(r)
+        if we:
+            msgs.append('result not well formed: %s' % we)
+        f = sx['full']
+        if x.is_ttm:
+            want = [a for a, b in tgt] + [b for a, b in tgt]
+            if list(r.M) != [a for a, b in tgt] or list(r.N) != [b for a, b in tgt]:
+                msgs.append('requested %s, got M=%s N=%s' % (tgt, r.M, r.N))
+            else:
+                # dense reshape of an operator: row modes and column modes are reshaped separately
+                ref = f.reshape(want)
+                if not relerr(r.full(), ref) < 1e-9:
+                    msgs.append('operator reshape %s -> %s differs from dense (rel.err %.2e)' % (descr(x), tgt, relerr(r.full(), ref)))
+        else:
+            if list(r.N) != list(tgt):
+                msgs.append('requested %s, got %s' % (tgt, r.N))
+            elif not relerr(r.full(), f.reshape(tgt)) < 1e-9:
+                msgs.append('reshape %s -> %s differs from the dense reshape (rel.err %.2e)' % (descr(x), tgt, relerr(r.full(), f.reshape(tgt))))
+        if not unchanged(x, sx):
+            msgs.append('operand modified by reshape')
+        if msgs:
+            break
+    return msgs
+
+
+def drv_permute(doc, args, inst):
+    msgs = []
+    x = build(inst, args['x'], 10)
+    sx = snapshot(x)
+    dims = [int(v) for v in inst['dims']]
+    try:
+        r = torchtt.permute(x, dims)
+    except Exception as e:
+        return ['permute(%s, %s) raises %s: %s' % (descr(x), dims, type(e).__name__, str(e)[:120])]
+    d = len(dims)
+    ref = sx['full'].permute(dims + [k + d for k in dims]) if x.is_ttm else sx['full'].permute(dims)
+    we = wf_errors(r)
+    if we:
+        msgs.append('not well formed: %s' % we)
+    if list(r.full().shape) != list(ref.shape):
+        msgs.append('shape %s vs %s' % (list(r.full().shape), list(ref.shape)))
+    elif not relerr(r.full(), ref) < 1e-8:
+        msgs.append('permute(%s, %s) differs from dense (rel.err %.2e)' % (descr(x), dims, relerr(r.full(), ref)))
+    if not unchanged(x, sx):
+        msgs.append('operand modified by permute')
+    return msgs
+
+
+def drv_qtt(doc, args, inst):
+    msgs = []
+    spec = dict(inst[args['x']])
+    spec['N'] = [int(n) for n in spec['N']]
+    g = tn.Generator().manual_seed(1)
+    N = spec['N']
+    R = [1] + [min(3, clampi(r)) for r in spec['R'][1:-1]] + [1]
+    x = TT([tn.randn([R[k], N[k], R[k + 1]], dtype=tn.float64, generator=g) for k in range(len(N))])
+    try:
+        q = x.to_qtt()
+        b = q.qtt_to_tens(list(N))
+    except Exception as e:
+        return ['to_qtt / qtt_to_tens raises %s: %s for N=%s' % (type(e).__name__, str(e)[:120], N)]
+    if any(n != 2 for n in q.N):
+        msgs.append('to_qtt modes %s' % q.N)
+    if list(b.N) != list(N):
+        msgs.append('round trip shape %s vs %s' % (b.N, N))
+    elif not relerr(b.full(), x.full()) < 1e-9:
+        msgs.append('QTT round trip differs (rel.err %.2e)' % relerr(b.full(), x.full()))
+    return msgs
+
+
+def drv_bounded(doc, args, inst):
+    """re-run a single case of the bounded run-time harness"""
+    import subprocess, os
+    a = doc.get('args') or {}
+    here = os.path.dirname(os.path.abspath(__file__))
+    p = subprocess.run([os.path.join(here, '.venv312', 'bin', 'python'), os.path.join(here, 'runtime', 'rmode.py'), a.get('prop', doc.get('property', '')),
+                        '--case', json.dumps(a)], capture_output=True, text=True, env=dict(os.environ))
+    lines = [l for l in p.stdout.splitlines() if l.startswith('RMODE-RESULT ')]
+    if not lines:
+        return ['bounded case could not be re-run: %s' % (p.stdout + p.stderr)[-300:]]
+    d = json.loads(lines[-1][len('RMODE-RESULT '):])
+    return [f.get('message', '') for f in d.get('failures', [])][:3]
+
+
+import json  # noqa: E402
+DRIVERS.update({'reshape': drv_reshape, 'permute': drv_permute, 'qtt': drv_qtt, 'rmode': drv_bounded, 'bounded': drv_bounded})
